@@ -6,16 +6,23 @@ SPEC = dict(
     manifest=dict(
         category='proof',
         text='Lean theorems over a hand model of tlb/vm_stack.py, for all stacks, all tuple nestings and all ten continuation kinds '
-             '(no size bound): c17_schema (every cell VmStack.serialize returns is an encoding of its argument under the block.tlb '
-             'VmStack relation: 24-bit depth, tinyint iff -2^63 <= v < 2^63, 15-bit 0201_ tag + int257 otherwise, tuple chaining 0/1/2/3+, '
-             'all VmCont kinds and VmControlData), c17_pure / c17_twice (in an explicit model of what serialize leaves in the caller\'s '
-             'objects the post-state equals the pre-state, so a second call returns the same cell; the same model with the pre-fix code path '
-             'exhibits F20). c17_roundtrip is proved only for the leaves (c17_roundtrip_partial: intN/uintN fields and VmCellSlice records '
-             'are read back exactly); the round trip of whole stacks (tag dispatch, tuple/stack/continuation recursion of the parser) is NOT '
-             'proved and is checked by sampling: on the library alone (deserialize(serialize(vs)) == vs by content, hash == an independent '
-             'Python transcription of the schema, serialize twice, deep snapshot of the caller\'s values) and against the Lean model (cell hash, '
-             'post-state, parsed stack, parser on damaged input).',
-        level_note='Partial proof. Trusted: Model/VmStack.lean mirrors vm_stack.py by hand (Python lists stored last-first); '
+             '(no size bound): c17_roundtrip (whenever VmStack.serialize(vs) returns a cell c, VmStack.deserialize(c.begin_parse()) returns vs - '
+             'equal values in the same order - for null, 64-bit and 257-bit integers, cells, slices, builders, arbitrarily nested tuples, every '
+             'VmCont kind and VmControlData with or without nargs / stack / save list / cp); it is the composition of c17_schema (every cell '
+             'VmStack.serialize returns is an encoding of its argument under the block.tlb VmStack relation: 24-bit depth, tinyint iff '
+             '-2^63 <= v < 2^63, 15-bit 0201_ tag + int257 otherwise, tuple chaining 0/1/2/3+, all VmCont kinds and VmControlData) with '
+             'c17_parser_accepts_schema (the parser returns vs on EVERY cell whose content is a schema encoding of vs, also ones the serialiser '
+             'never writes, e.g. VmCellSlice windows that start inside the cell, and leaves nothing unread; proved by mutual recursion over the '
+             'schema derivation: tag dispatch of VmStackValue.deserialize on the 15-bit / 2-byte preload, the VmTuple / VmTupleRef / VmStackList '
+             'recursions, the ten VmCont branches, VmControlData); corollary c17_serialize_injective. c17_pure / c17_twice (in an explicit model of '
+             'what serialize leaves in the caller\'s objects the post-state equals the pre-state, so a second call returns the same cell; the same '
+             'model with the pre-fix code path exhibits F20). c17_roundtrip_fields is the field-level statement underneath (intN/uintN fields and '
+             'VmCellSlice records are read back exactly). Sampling is used only to tie the model to the code: on the library alone '
+             '(deserialize(serialize(vs)) == vs by content, hash == an independent Python transcription of the schema, serialize twice, deep '
+             'snapshot of the caller\'s values) and against the Lean model (cell hash, post-state, parsed stack, parser on damaged input).',
+        level_note='Full proof of all three clauses over the model. The parser model carries a recursion budget (one unit per nested call; Python has '
+                   'none): the round trip holds for every budget >= fuelL vs, an explicit bound linear in the size of the stack (the driver runs with 10^8). Trusted: Model/VmStack.lean mirrors vm_stack.py by hand '
+                   '(Python lists stored last-first); '
                    'Spec/Tlb/VmStack.lean says what block.tlb says; the save list (HashmapE 4 VmStackValue) is an opaque dictionary root cell '
                    'in model and spec (HashMap codec is C09/C10); cell construction is a parameter (mk/view/ord) with the laws view(mk b r) = (b, r), '
                    'ord(mk b r); the post-state model describes successful calls only; model = code is sampled differential testing.',
